@@ -749,7 +749,10 @@ func c10NativeFuzz(c *drv.Ctx) error {
 		cs := &synCase{Text: text, Mutated: true}
 		what, _ := judgeSyntax(cs, true)
 		if what == "" {
-			what = "native fuzzing reported a failure that does not reproduce in process:\n" + tail(res.Output, 1200)
+			// only what reproduces in process is a violation (the engine also stops on a slow execution)
+			c.Stats.Class("native_fuzz_stopped_without_reproducible_failure")
+			c.Notes = append(c.Notes, "native fuzzing stopped on a text that does not reproduce in process: "+strconv.Quote(text))
+			return nil
 		}
 		c.AddViolation(drv.Violation{Property: "C10", Kind: "syntax-text", What: what + "\n--- text (found by go test -fuzz) ---\n" + text, Case: cs})
 	}
